@@ -2,6 +2,10 @@
 export GOFLAGS=-mod=mod GOPROXY=off GOSUMDB=off GOTOOLCHAIN=local
 export VERIF_ROOT="${VERIF_ROOT:-/verif}"
 export PATH="$PATH:/usr/local/go/bin"
+# The SDK's keyring links a D-Bus client that, with no session bus address in the environment, auto-launches
+# a dbus-daemon when the process starts (package initialisation) and leaves it behind. Point it nowhere, for
+# the explorer, its worker processes and every invocation of the node binary.
+export DBUS_SESSION_BUS_ADDRESS="${DBUS_SESSION_BUS_ADDRESS:-unix:path=/nonexistent/verif-no-dbus}"
 build_fmc() {
   # Rebuilds the explorer against /repo's current working tree (incremental; go.mod replaces the
   # module path with /repo, so any edit there is compiled in). go.sum follows the repository's.
